@@ -2,6 +2,7 @@
   C03 — A simple paragraph is kept or dropped as a whole.
 -/
 import Distill.Proofs.SimplePara
+import Distill.Props.FiltersProps
 import Distill.Model.TextDoc
 namespace Distill.C03
 open Distill
